@@ -24,6 +24,17 @@ def items(tier):
             out.append(("reuse", c))
         for c in grid.program_grid(tier) + grid.index_grid(tier) + [c for c in grid.real_grid("quick", families=("binary", "contract")) if c.prim in ("add", "multiply", "op+", "op*", "dot", "matmul", "concatenate", "where")][:120]:
             out.append(("reuse", c))
+        # every primitive of the real grid: the closure returned by its VJP maker / its JVP must not carry state
+        # from one call to the next (one-shot iterators, popped kwargs, cached buffers)
+        seen = {}
+        have = {item_key(it) for it in out}
+        per = 5 if tier == "quick" else 40
+        for c in grid.real_grid("quick"):
+            n = seen.get(c.prim, 0)
+            if n >= per or ("reuse " + c.key) in have:
+                continue
+            seen[c.prim] = n + 1
+            out.append(("reuse", c))
     elif which == "C17":
         for c in grid.program_grid(tier):
             out.append(("checkpoint", c))
